@@ -18,7 +18,7 @@ Theorem C08_layout_consistent :
   TAGR_NULL = TAGW_NULL /\ TAGR_BOOL = TAGW_BOOL /\ TAGR_INT = TAGW_INT /\ TAGR_FLOAT = TAGW_FLOAT
   /\ TAGR_STRING = TAGW_STRING /\ TAGR_FUNC = TAGW_FUNC /\ TAGR_PTR = TAGW_PTR
   /\ NoDup [TAGW_NULL; TAGW_BOOL; TAGW_INT; TAGW_FLOAT; TAGW_STRING; TAGW_FUNC; TAGW_PTR]
-  /\ lenN MAGIC = 4 /\ VERSION < W16 /\ OP_REWRITE < 256.
+  /\ lenN MAGIC = 4 /\ VERSION < W16 /\ OP_REWRITE < 256 /\ LIM_PTR = W48 - 1.
 Proof. exact layout_facts. Qed.
 
 (* read (write f) = Ok (normalize f) for ALL functions whose fields have the Rust types'
